@@ -59,6 +59,8 @@ fn main() {
         ("replay", "xlsb") => props::xlsb::replay(&args),
         ("replay", "xlsbframes") => props::xlsb::frames(&args),
         ("drive", "xlsb") => props::xlsb::drive(&args),
+        ("replay", "xlsbfmla") => props::xlsb_fmla::replay(&args),
+        ("replay", "xlsbcols") => props::xlsb_fmla::columns(&args),
         _ => {
             eprintln!("unknown command {} {}", args.cmd, args.sub);
             2
